@@ -107,6 +107,9 @@ enum Unary {
     Some,
     Either(bool),
     Trace,
+    /// `{"type": "ref", "ref": uid}` resolved through a `ViewCache` that holds the child (the type has a JSON form
+    /// only); the direct build is a `Dynamic` that hands out the child (a view that stands for another one)
+    Ref,
 }
 
 #[derive(Clone, Copy, Debug, PartialEq, Eq, Hash, Serialize, Deserialize)]
@@ -176,6 +179,7 @@ impl Spec {
                 Unary::Some => "some",
                 Unary::Either(_) => "either",
                 Unary::Trace => "trace",
+                Unary::Ref => "ref",
             },
             Spec::Flex(..) => "flex",
         }
@@ -370,6 +374,19 @@ fn leaf_view(leaf: Leaf, probe_id: &mut u8, log: &Arc<Log>) -> Box<dyn View> {
         Leaf::Image => Box::new(RES.image.clone()),
         Leaf::ImageAscii => Box::new(RES.image_small.ascii_view()),
         Leaf::Glyph => Box::new(RES.glyph.clone()),
+        // 4..8: the callback variant of the scroll bar (position asked for at render time); with the last value the
+        // position is what `ScrollBarPosition::from_counts` gives for an empty list (0 / 0)
+        Leaf::ScrollBar(vertical, vis) if vis >= 4 => Box::new(surf_n_term::view::ScrollBarFn::new(
+            axis(vertical),
+            Face::new(Some(RGBA::new(0, 128, 0, 255)), Some(RGBA::new(128, 0, 0, 255)), FaceAttrs::EMPTY),
+            move || {
+                if vis == 7 {
+                    ScrollBarPosition::from_counts(0, 0, 0)
+                } else {
+                    ScrollBarPosition { offset: 0.5, visible: VISIBLE[(vis - 4) as usize] }
+                }
+            },
+        )),
         Leaf::ScrollBar(vertical, vis) => Box::new(ScrollBar::new(
             axis(vertical),
             Face::new(Some(RGBA::new(0, 128, 0, 255)), Some(RGBA::new(128, 0, 0, 255)), FaceAttrs::EMPTY),
@@ -419,6 +436,61 @@ fn wrap_unary(u: Unary, child: Box<dyn View>, log: &Arc<Log>) -> Box<dyn View> {
                 log.traces.fetch_add(1, Ordering::Relaxed);
             }))
         }
+        // the direct twin of a reference: a view that stands for another one and is laid out in a node of its own
+        Unary::Ref => {
+            let child: ArcView<'static> = Arc::from(child);
+            Box::new(Dynamic::new(move |_ctx: &ViewContext, _ct: BoxConstraint| child.clone()))
+        }
+    }
+}
+
+thread_local! {
+    static GUARD_DEPTH: std::cell::Cell<usize> = const { std::cell::Cell::new(0) };
+}
+
+/// Pass-through wrapper around every view held by the cache: turns unbounded recursion through a reference (which
+/// would overflow the stack and kill the process) into a panic that is reported as a finding.
+struct Guard(Box<dyn View>);
+
+impl Guard {
+    fn enter<R>(f: impl FnOnce() -> R) -> R {
+        let depth = GUARD_DEPTH.with(|d| {
+            d.set(d.get() + 1);
+            d.get()
+        });
+        if depth > 200 {
+            GUARD_DEPTH.with(|d| d.set(0));
+            panic!("a referenced view is entered recursively more than 200 levels deep (unbounded recursion)");
+        }
+        struct Leave;
+        impl Drop for Leave {
+            fn drop(&mut self) {
+                GUARD_DEPTH.with(|d| d.set(d.get().saturating_sub(1)));
+            }
+        }
+        let _leave = Leave;
+        f()
+    }
+}
+
+impl View for Guard {
+    fn render(&self, ctx: &ViewContext, surf: TerminalSurface<'_>, layout: ViewLayout<'_>) -> Result<(), Error> {
+        Guard::enter(|| self.0.render(ctx, surf, layout))
+    }
+    fn layout(&self, ctx: &ViewContext, ct: BoxConstraint, layout: ViewMutLayout<'_>) -> Result<(), Error> {
+        Guard::enter(|| self.0.layout(ctx, ct, layout))
+    }
+}
+
+/// cache behind the `ref` nodes of a JSON twin: filled by the `x-ref` handler while the tree is deserialised
+#[derive(Default)]
+struct TwinCache {
+    views: Mutex<std::collections::HashMap<i64, ArcView<'static>>>,
+}
+
+impl surf_n_term::view::ViewCache for TwinCache {
+    fn get(&self, uid: i64) -> Option<ArcView<'static>> {
+        self.views.lock().unwrap().get(&uid).cloned()
     }
 }
 
@@ -553,6 +625,11 @@ fn to_json(spec: &Spec, probe_id: &mut u8) -> Value {
                 Unary::Some => json!({"type": "x-some", "view": child}),
                 Unary::Either(left) => json!({"type": "x-either", "left": left, "view": child}),
                 Unary::Trace => json!({"type": "trace-layout", "msg": "c10", "view": child}),
+                Unary::Ref => {
+                    // the uid is the probe counter at this point plus a hash of the child: unique within one tree
+                    let uid = (crate::engine::util::hash64(&child.to_string()) >> 16) as i64;
+                    json!({"type": "x-ref", "uid": uid, "view": child})
+                }
             }
         }
         Spec::Flex(vertical, justify, children) => {
@@ -597,7 +674,21 @@ fn nested(seed: &ViewDeserializer<'_>, value: &Value) -> Box<dyn View> {
 
 /// Deserializer with handlers for the view types that have no JSON form of their own.
 fn deserializer(log: &Arc<Log>) -> ViewDeserializer<'static> {
-    let mut de = ViewDeserializer::new(None, None);
+    let cache = Arc::new(TwinCache::default());
+    let dyn_cache: Arc<dyn surf_n_term::view::ViewCache> = cache.clone();
+    let mut de = ViewDeserializer::new(None, Some(dyn_cache));
+    // `x-ref`: deserialise the nested view, put it into the cache, and hand back the library's own `ref` node
+    let c = cache.clone();
+    de.register("x-ref", move |seed: &ViewDeserializer<'_>, v: &Value| -> ArcView<'static> {
+        use serde::de::DeserializeSeed;
+        let uid = v["uid"].as_i64().unwrap_or(0);
+        let child: ArcView<'static> = Arc::new(Guard(nested(seed, v)));
+        c.views.lock().unwrap().insert(uid, child);
+        match seed.deserialize(&json!({"type": "ref", "ref": uid})) {
+            Ok(view) => view,
+            Err(_) => Arc::new(FailView),
+        }
+    });
     let l = log.clone();
     de.register("x-probe", move |_seed: &ViewDeserializer<'_>, v: &Value| -> ArcView<'static> {
         Arc::new(Probe { id: v["id"].as_u64().unwrap_or(0) as u8, fixed: v["fixed"].as_bool().unwrap_or(false), log: l.clone() })
@@ -1285,6 +1376,7 @@ fn grammar_structure() -> Grammar {
             Unary::Frame,
             Unary::Tag,
             Unary::Dynamic,
+            Unary::Ref,
         ],
         dj: vec![(false, 0), (false, 4), (true, 0), (true, 4)],
         attrs: vec![FlexAttr { flex: 0, align: 0, face: false }, FlexAttr { flex: 1, align: 2, face: true }],
@@ -1311,15 +1403,15 @@ fn all_leaves() -> Vec<Spec> {
         leaf(Leaf::None),
     ];
     for vertical in [false, true] {
-        for vis in 0..4 {
+        for vis in 0..8 {
             v.push(leaf(Leaf::ScrollBar(vertical, vis)));
         }
     }
     v
 }
 
-const DECORATORS: [Unary; 7] =
-    [Unary::Frame, Unary::Tag, Unary::Dynamic, Unary::Some, Unary::Either(true), Unary::Either(false), Unary::Trace];
+const DECORATORS: [Unary; 8] =
+    [Unary::Frame, Unary::Tag, Unary::Dynamic, Unary::Some, Unary::Either(true), Unary::Either(false), Unary::Trace, Unary::Ref];
 
 fn grammar_rich() -> Grammar {
     let mut unaries = vec![];
